@@ -11,6 +11,7 @@ package gorums
 // library's writes by the locks the library itself takes.
 func VerifC15Observer(maxEvents, nobs int) {
 	w := vMixed(1, 0, nil)
+	vFreezeEnv() // no timer fires: a failed reconnection attempt is followed by a back-off that lasts
 	p := w.peers[0]
 	n := w.nodes[0]
 	kind := vChoice("workload", 3)
